@@ -415,7 +415,14 @@ func c11Heavy(reps int) int {
 		// a try that fails after rendering, and one that succeeds
 		l2.Set("/tryfail.jet", `{{ try }}PARTIAL{{ nosuchvariable }}{{ end }}`)
 		l2.Set("/tryok.jet", `<{{ try }}ok{{ end }}>`)
+		// executed without variables right after executions that had some: nothing of theirs is visible, and what a
+		// function binds through the Runtime API lands in no one else's VarMap
+		l2.Set("/novars.jet", `{{ isset(xs) }}{{ isset(leak) }}{{ isset(st) }}{{ mark() }}{{ isset(marked) }}`)
 		set2 := jet.NewSet(l2)
+		set2.AddGlobalFunc("mark", func(a jet.Arguments) reflect.Value {
+			a.Runtime().LetGlobal("marked", 1)
+			return reflect.Value{}
+		})
 		if _, err := set2.GetTemplate("base"); err != nil {
 			fail("base: %v", err)
 		}
@@ -462,7 +469,7 @@ func c11Heavy(reps int) int {
 							fail("page rendered %q (err %v), alone it renders THEME|THEME", pb.String(), err)
 						}
 					}
-					for _, e := range [][2]string{{fmt.Sprintf("own_%d_%d", g, k), "OWN|OWN"}, {"user", "THEME"}, {"tryfail", ""}, {"tryok", "<ok>"}} {
+					for _, e := range [][2]string{{fmt.Sprintf("own_%d_%d", g, k), "OWN|OWN"}, {"user", "THEME"}, {"tryfail", ""}, {"tryok", "<ok>"}, {"novars", "falsefalsefalsetrue"}} {
 						tx, err := set2.GetTemplate(e[0])
 						if err != nil {
 							fail("GetTemplate(%s): %v", e[0], err)
@@ -472,6 +479,9 @@ func c11Heavy(reps int) int {
 						if err := tx.Execute(&xb, nil, nil); err != nil || xb.String() != e[1] {
 							fail("%s rendered %q (err %v), alone it renders %q", e[0], xb.String(), err, e[1])
 						}
+					}
+					if _, leaked := vars["marked"]; leaked || len(vars) != 7 {
+						fail("the VarMap given to an earlier Execute was modified by a later execution: %d entries, marked=%v", len(vars), leaked)
 					}
 					if tb, err := set2.GetTemplate("base"); err == nil {
 						var bb bytes.Buffer
